@@ -185,8 +185,7 @@ def gen(side: str, mod: str, inv: str, sfx: str, inv_def: str, close: str, overr
     if only is not None:
         table = [t for t in table if t[0] in only]
     if inline:
-        table = [(n, b, t, (u + [x for x in inline if x not in u]) if u is not None else None,
-                  [c for c in cs if c.partition(":")[0] not in inline]) for n, b, t, u, cs in table
+        table = [(n, b, t, u, [c for c in cs if c.partition(":")[0] not in inline]) for n, b, t, u, cs in table
                  if n not in inline]
     L = [f"import CfdpVerif.Model.{side}", "import CfdpVerif.Lemmas.Monad", extra_imports,
          "/-!", "GENERATED by tools/gen_inv.py — do not edit.", "", doc, "-/",
@@ -243,7 +242,8 @@ def gen(side: str, mod: str, inv: str, sfx: str, inv_def: str, close: str, overr
             L.append(f"{head}\n  apply Preserves.of_readOnly\n  unfold {un}\n  read_only\n")
             continue
         cl = ", ".join(ref(c) for c in callees)
-        L.append(f"{head}\n  unfold {' '.join(unfold)}\n  preserves_with [{cl}]\n  close_inv\n")
+        tri = "".join(f"  try unfold {x}\n" for x in inline)
+        L.append(f"{head}\n  unfold {' '.join(unfold)}\n{tri}  preserves_with [{cl}]\n  close_inv\n")
     names = {t[0] for t in table}
     if side == "Dest" and "stateMachineWith" in names:
         L.append(f"theorem stateMachine_{sfx} (env : Env) {params} (p : Option Pdu) :\n"
@@ -319,6 +319,22 @@ def main():
         "Destination handler: the methods listed here never touch the filestore (frame lemmas for C05/C16):\n"
         "everything except `_init_vfs_handling`, `write_data` in `_handle_fd_pdu` and the deletion in\n"
         "`_notice_of_completion` (and their callers).", only=frame_only, params="(F : Fs)")
+    nc_only = ["addPacket", "addPackets", "emitInd", "getP", "transmissionMode", "assertThat",
+               "resetInternal", "noticeOfCancellation", "declareFault", "trigger",
+               "prepareEofAckPacket", "fileTransferCompleteTransition",
+               "startCheckLimitHandling", "commonFirstPacketHandler", "commonFirstNotMd", "handleFdWithoutMd",
+               "handleEofWithoutMd", "lostSegmentHandling", "fdIndication", "fdLostSegments", "fdAfterWrite",
+               "vfsWriteData", "fdWrite", "handleFdPdu", "resetNak", "prepareFinishedPdu", "startPositiveAck",
+               "handleFinishedPduSent", "resendFinished", "checkInserted", "getNextPacket", "cancelRequest",
+               "noticeOfCompletion", "handleTransferCompletion"]
+    files["InvDestNotComplete.lean"] = gen(
+        "Dest", "NotComplete", "NotComplete", "n",
+        "/-- the delivery code is not (yet) Data-complete -/\n"
+        "def NotComplete (_ : Env) (s : DestSt) : Prop := s.p.fin.deliv ≠ dcComplete",
+        "simp_all [NotComplete, dcComplete, dcIncomplete]", {}, {},
+        "Destination handler: none of the methods listed here can turn the delivery code into Data-complete\n"
+        "(C01): that is done only by a successful `_checksum_verify` (and for metadata-only transfers by\n"
+        "`_handle_metadata_packet`).", only=nc_only, inline=("modP",))
     for n, t in files.items():
         (OUT / n).write_text(t)
         print("wrote", n)
